@@ -16,52 +16,35 @@ def ValidWidths (ws : List Nat) : Prop := ∀ w ∈ ws, 1 ≤ w ∧ w ≤ 32
 instance (fs) : Decidable (ValidFields fs) := by unfold ValidFields; infer_instance
 instance (ws) : Decidable (ValidWidths ws) := by unfold ValidWidths; infer_instance
 
-/-- `bitwrite_refines`. For ALL field lists (any length, widths 1..32, any values) and either flush bit, the bytes
-    stored by sequential `Hbitwrite`s followed by `Hendbitaccess` start with the MSB-first concatenation of the low
-    `w` bits of each value (1).  While fewer than `BITBUF_SIZE` (4096) whole bytes were produced the stream is exactly that
-    concatenation zero-padded to a byte boundary (2) — whatever `flushbit` is: the C code never uses it (finding
-    `bits-pad-flushbit1`).  Beyond 4096 bytes the C code pads with stale buffer bits and appends the rest of the stale
-    buffer (findings `bits-pad-stale`, `bits-len-tail`), so only the prefix statement (1) holds; (3) gives the stored length
-    in the short case. -/
-theorem bitwrite_refines (fs : List (Nat × Nat)) (hv : ValidFields fs) (fb : Option Bool) :
-    (∃ tail, bytesBits (pack fs fb) = fieldsBits fs ++ tail) ∧
-    ((fieldsBits fs).length / 8 < 4096 →
-      (∃ k, k < 8 ∧ bytesBits (pack fs fb) = fieldsBits fs ++ List.replicate k false) ∧
-      (pack fs fb).length = ((fieldsBits fs).length + 7) / 8) := by
+/-- `bitwrite_refines`. For ALL field lists (any number of fields, widths 1..32, any values, ANY stream length) and either
+    flush bit `fb`, the bytes stored by `Hstartbitwrite` on a new element, sequential `Hbitwrite`s and `Hendbitaccess(id, fb)` are
+    exactly the MSB-first concatenation of the low `w` bits of each value, completed to a byte boundary with `k < 8` copies of
+    the flush bit - nothing else is stored: the element is `⌈bits/8⌉` bytes long.
+    (Unconditional since the repairs of `bits-pad-flushbit1`/`bits-pad-stale` and `bits-len-tail`: before them the statement
+    held only below `BITBUF_SIZE` bytes and only for zero padding.) -/
+theorem bitwrite_refines (fs : List (Nat × Nat)) (hv : ValidFields fs) (fb : Bool) :
+    (∃ k, k < 8 ∧ bytesBits (pack fs (some fb)) = fieldsBits fs ++ List.replicate k fb) ∧
+    (pack fs (some fb)).length = ((fieldsBits fs).length + 7) / 8 := by
   obtain ⟨w0, r0, m0, s0⟩ := startWrite_ok
   obtain ⟨w1, r1, m1, s1⟩ := writeFields_ok fs _ w0 r0 m0 hv
-  obtain ⟨e1, e2, e3⟩ := endAccess_ok w1 r1 m1 fb
   rw [s0, List.nil_append] at s1
+  have e1 := endAccess_ok w1 r1 m1 fb
+  have e2 := endAccess_length w1 r1 m1 fb
   rw [s1] at e1 e2
-  unfold pack
-  refine ⟨e1, fun hlt => ?_⟩
-  -- fewer than 4096 whole bytes: nothing was flushed yet
-  generalize writeFields (startWrite none) fs = X at *
-  have hlen : (fieldsBits fs).length = 8 * (X.elem.length + X.pre.length) + (8 - X.count) := by
-    rw [← s1]; simp [stream, emitted]
-  have hnil : X.elem = [] := by
-    rcases w1.big with h | h
-    · exact h
-    · omega
-  refine ⟨e2 hnil, ?_⟩
-  rw [e3, if_pos hnil]
-  rw [hnil] at hlen
-  have := r1.1; have := r1.2.1
-  simp only [List.length_nil, Nat.zero_add] at hlen
-  split <;> omega
+  exact ⟨e1, e2⟩
 
-/-- non-vacuity / sample: three fields crossing byte boundaries -/
+/-- non-vacuity / sample: fields crossing byte boundaries, zero and one padding -/
 example : pack [(3, 5), (8, 255), (32, 0xDEADBEEF), (1, 1)] (some false) = [0xBF, 0xFB, 0xD5, 0xB7, 0xDD, 0xF0] := by
+  decide +kernel
+example : pack [(3, 5), (8, 255), (32, 0xDEADBEEF), (1, 1)] (some true) = [0xBF, 0xFB, 0xD5, 0xB7, 0xDD, 0xFF] := by
   decide +kernel
 
 example : ValidFields [(3, 5), (8, 255), (32, 0xDEADBEEF), (1, 1)] := by decide
 
-/-- counter-witness for "zero-padded to a byte boundary" beyond the buffer size (findings `bits-pad-stale`, `bits-len-tail`):
-    4096 bytes of ones followed by three zero bits and `Hendbitaccess(id, 0)` leave an element of 8192 bytes whose byte 4096 is
-    `0x1F` (three zero bits, then five STALE one-bits of the byte written 4096 bytes earlier) followed by 4095 stale bytes.
-    The real library stores exactly these bytes (REPORT.md, reproduction p2.c); the prefix statement (1) still holds. -/
-example : (pack (List.replicate 1024 (32, 0xFFFFFFFF) ++ [(3, 0)]) (some false)).length = 8192 ∧
-    (pack (List.replicate 1024 (32, 0xFFFFFFFF) ++ [(3, 0)]) (some false))[4096]? = some 0x1F := by
+/-- the former counter-witness (stale padding and a stale 4095-byte tail beyond the buffer size) is gone:
+    4096 bytes of ones followed by three zero bits are stored as 4097 bytes, the last one `0x00` -/
+example : (pack (List.replicate 1024 (32, 0xFFFFFFFF) ++ [(3, 0)]) (some false)).length = 4097 ∧
+    (pack (List.replicate 1024 (32, 0xFFFFFFFF) ++ [(3, 0)]) (some false))[4096]? = some 0x00 := by
   set_option maxRecDepth 100000 in decide +kernel
 
 /-- `bitread_refines`. For ALL element contents and ALL width lists (each 1..32) whose total does not exceed the
@@ -94,14 +77,14 @@ theorem sum_widths (fs : List (Nat × Nat)) : (fs.map Prod.fst).sum = (fieldsBit
 /-- `bit_roundtrip`. Whatever sequence of fields (widths 1..32) is written to a new element, reading the same
     width sequence back returns the low `w` bits of every value — for every width sequence, every stream length
     (including streams longer than the 4096-byte buffer) and either flush bit. -/
-theorem bit_roundtrip (fs : List (Nat × Nat)) (hv : ValidFields fs) (fb : Option Bool) :
-    unpack (pack fs fb) (fs.map Prod.fst) = some (fs.map fun f => f.2 % 2 ^ f.1) := by
-  obtain ⟨⟨tail, ht⟩, _⟩ := bitwrite_refines fs hv fb
+theorem bit_roundtrip (fs : List (Nat × Nat)) (hv : ValidFields fs) (fb : Bool) :
+    unpack (pack fs (some fb)) (fs.map Prod.fst) = some (fs.map fun f => f.2 % 2 ^ f.1) := by
+  obtain ⟨⟨k, _, ht⟩, _⟩ := bitwrite_refines fs hv fb
   have hv' : ValidWidths (fs.map Prod.fst) := by
     intro w hw
     obtain ⟨f, hf, rfl⟩ := List.mem_map.mp hw
     exact hv f hf
-  have hlen : (fs.map Prod.fst).sum ≤ 8 * (pack fs fb).length := by
+  have hlen : (fs.map Prod.fst).sum ≤ 8 * (pack fs (some fb)).length := by
     have := congrArg List.length ht
     simp at this
     rw [sum_widths]; omega
@@ -111,9 +94,9 @@ theorem bit_roundtrip (fs : List (Nat × Nat)) (hv : ValidFields fs) (fb : Optio
 /-- `seek_read_refines` (partial coverage of `Hbitseek`): on a read bit id of an element that fits one buffer block
     (≤ 4096 bytes), `Hbitseek(id, B, b)` followed by any sequence of `Hbitread`s returns the fields of the element's bit
     stream with the first `8·B + b` bits dropped — seek-then-read = read of the dropped bit list.
-    Not covered by a theorem (Tie B only, engine `bits` op `script`): seeks after other operations, seeks between blocks,
-    seeks and merges in write mode (`HIbitflush` middle-of-dataset branch) and the read↔write switches
-    (`HIwrite2read`, `HIread2write`) — the last one is broken in the C code (finding `bits-r2w-*`). -/
+    Not covered by a theorem (Tie B + the shadow-bit-array oracle of engine `bits`, op `script`): seeks after other operations,
+    seeks between blocks, seeks and merges in write mode (`HIbitflush` middle-of-dataset branch) and the read↔write switches
+    (`HIwrite2read`, `HIread2write`; the latter repaired, finding `bits-r2w-*`: regression anchors below). -/
 theorem seek_read_refines (e : List UInt8) (B b : Nat) (ws : List Nat) (hlen : e.length ≤ 4096) (hB : B < e.length) (hb : b < 8)
     (hv : ValidWidths ws) (hsum : 8 * B + b + ws.sum ≤ 8 * e.length) :
     (bitseek (startRead e) B b).2 = true ∧
@@ -123,5 +106,20 @@ theorem seek_read_refines (e : List UInt8) (B b : Nat) (ws : List Nat) (hlen : e
   rw [readFields_ok ws _ i hv (by rw [a]; simp; omega), a, takeFields_append _ _ _ (by simp; omega)]
 
 example : readFields (bitseek (startRead [0xAB, 0xCD, 0xEF]) 1 4).1 [8, 4] = some [0xDE, 0xF] := by decide +kernel
+
+/-! Regression anchors for the repaired read→write switch (`HIread2write`, finding `bits-r2w-*`; reproductions p4.c a/b/g):
+    element `ab cd ef 01` opened with `Hstartbitwrite`. -/
+/-- byte-aligned: read 8 bits, write 8 bits -/
+example : endAccess (bitwrite (bitread (startWrite (some [0xAB, 0xCD, 0xEF, 0x01])) 8).1 8 0x12).1 (some false)
+    = [0xAB, 0x12, 0xEF, 0x01] := by decide +kernel
+/-- inside a byte: read 4 bits, write 8 bits -/
+example : endAccess (bitwrite (bitread (startWrite (some [0xAB, 0xCD, 0xEF, 0x01])) 4).1 8 0x12).1 (some false)
+    = [0xA1, 0x2D, 0xEF, 0x01] := by decide +kernel
+/-- read, seek, write -/
+example : endAccess (bitwrite (bitseek (bitread (startWrite (some [0xAB, 0xCD, 0xEF, 0x01])) 8).1 1 0).1 8 0x12).1 (some false)
+    = [0xAB, 0x12, 0xEF, 0x01] := by decide +kernel
+/-- read up to the end, then append 12 bits: the element grows by two bytes, the last one zero-padded -/
+example : endAccess (bitwrite (bitread (startWrite (some [0xAB, 0xCD])) 16).1 12 0xFFF).1 (some false)
+    = [0xAB, 0xCD, 0xFF, 0xF0] := by decide +kernel
 
 end H4.Props.C05
